@@ -24,8 +24,16 @@ def sh(cmd, cwd=None, timeout=3600):
     return r.returncode, r.stdout + r.stderr
 
 
-def failing_tests(out):
-    return set(m.split("/")[0] for m in re.findall(r"^--- FAIL: (\S+)", out, re.M))
+STABLE = set(json.load(open("/root/.vp/BASELINE.json"))["stable_pass"])
+FLAKY_UNDER_LOAD = {"TestLockWaitTimeout", "TestLockWaitCancel", "TestLockWaitSuccess", "TestLockSuccessfulRefresh", "TestLockFailedRefresh", "TestLockRefreshStale"}
+
+
+def failing_tests(out, pkg=None):
+    """top-level failing tests; with pkg: only those the baseline lists as stable passes"""
+    ft = set(m.split("/")[0] for m in re.findall(r"^\s*--- FAIL: (\S+)", out, re.M))
+    if pkg is not None:
+        ft = set(t for t in ft if ("github.com/restic/restic/%s::%s" % (pkg.strip("./"), t)) in STABLE)
+    return ft
 
 
 def main():
@@ -83,18 +91,21 @@ def main():
         new_fail = set()
         for pk in pkgs:
             rc, o = sh("go test ./%s/ -count=1" % pk, cwd=wt, timeout=3000)
-            ft = failing_tests(o) - KNOWN_BASELINE_FAILS
+            ft = failing_tests(o, pk) - KNOWN_BASELINE_FAILS
             if rc != 0 and not failing_tests(o):
                 ft.add("BUILD-OR-PANIC:" + o[-200:])
             if ft:
                 # re-run once to rule out load flakes
                 rc2, o2 = sh("go test ./%s/ -count=1 -run '%s'" % (pk, "|".join(t for t in ft if not t.startswith("BUILD"))), cwd=wt, timeout=3000)
-                ft = (failing_tests(o2) - KNOWN_BASELINE_FAILS) if not any(t.startswith("BUILD") for t in ft) else ft
+                ft = (failing_tests(o2, pk) - KNOWN_BASELINE_FAILS) if not any(t.startswith("BUILD") for t in ft) else ft
             new_fail |= ft
             ran.append("patched: go test ./%s/ -> %s" % (pk, "no new failures" if not ft else "NEW FAILURES %s" % sorted(ft)))
         if not any(p.startswith("cmd/restic") for p in pkgs):
             rc, o = sh("go test ./cmd/restic -count=1", cwd=wt, timeout=3000)
-            ft = failing_tests(o) - KNOWN_BASELINE_FAILS
+            ft = failing_tests(o, "cmd/restic") - KNOWN_BASELINE_FAILS
+            if ft:
+                rc2, o2 = sh("go test ./cmd/restic -count=1 -run '%s'" % "|".join(ft), cwd=wt, timeout=3000)
+                ft = failing_tests(o2, "cmd/restic") - KNOWN_BASELINE_FAILS
             new_fail |= ft
             ran.append("patched: go test ./cmd/restic -> %s" % ("no new failures" if not ft else "NEW FAILURES %s" % sorted(ft)))
         verdict["existing_tests_pass"] = not new_fail
